@@ -113,7 +113,7 @@ class Check(core.CheckBase):
         # function of the message alone: unchanged by compose -> parse, and by repeated calls
         try:
             again = self.hello.parse_exact_size(bytes(parsed.compose()))
-            if structural.equal(again, parsed) and again.ja3() != got:
+            if again.ja3() != got:
                 found.append(self.violation('ja3-unstable|roundtrip', 'ja3() changes after compose -> parse', case))
             if parsed.ja3() != got:
                 found.append(self.violation('ja3-unstable|repeat', 'ja3() changes between two calls', case))
